@@ -76,6 +76,9 @@ var Seeds = [][]string{
 	{"T", "|", "join", "(", "U", "|", "join", "(", "T", ")", "on", "a", ")", "on", "$left", ".", "a", "==", "f", "(", "1", ")", ",", "b", "in", "(", "1", ")"},
 	{"let", "a", "=", "f", "(", "1", ")", ";", "let", "b", "=", "a", ";", "T", "|", "take", "1", ";"},
 	{"T", "|", "where", "a", "in", "(", "f", "(", "1", ",", ")", ",", "b", "[", "1", "]", ")", "|", "count", "|", "as", "U"},
+	// 18-19: nested built-ins with siblings; a query followed by further statements
+	{"T", "|", "extend", "strcat", "(", "a", ",", "strcat", "(", "b", ")", ")", ",", "tolower", "(", "toupper", "(", "a", ")", ")"},
+	{"T", "|", "top", "1", "by", "a", ";", "U", "|", "count", ";", "let", "a", "=", "1"},
 }
 
 func vocabIndex(vocab []string, lex string) int {
